@@ -777,9 +777,16 @@ class Summarizer(Evaluator):
     st_Nonlocal = st_Pass
 
     def st_Import(self, n, st):
+        for a in n.names:
+            st.env[(a.asname or a.name).split('.')[0]] = (
+                'import', a.name if a.asname else a.name.split('.')[0])
         return [(st, None)]
 
-    st_ImportFrom = st_Import
+    def st_ImportFrom(self, n, st):
+        for a in n.names:
+            st.env[a.asname or a.name] = ('importfrom', '.' * n.level
+                                          + (n.module or ''), a.name)
+        return [(st, None)]
 
     def st_FunctionDef(self, n, st):
         st.env[n.name] = ('localfunc', n.name)
